@@ -172,6 +172,7 @@ class Executor(object):
         self._for_covers = {}
         self._loops_done = set()
         self.stats = dict(feasibility_checks=0, paths=0)
+        self.cmp_log = {}                     # name of the fresh boolean of an unmodelled comparison -> (op, left, right)
         self.dtype_tags = {}                  # id(value) -> (tag, value): opt-in provenance of an array's dtype (`x.dtype` then names the tag)
         self.borrowed = {}                    # id(value object) -> description: arrays the caller of the verified function still holds
 
